@@ -168,15 +168,15 @@ def unit_hostile_data():
                              describe=lambda c: {"format": c[0], "fault": c[1], "offset": c[2]}, function="validio.rows / applications.main", unit="C10.hostile.data", props=["C10", "C06"]))
             # data streams whose `name` is not a usable text (None: SpooledTemporaryFile; an int: TemporaryFile, standard input; empty): rows or a DataError whose text can be printed
             def scases():
-                for fmt in ("delimited", "fixed", "ods"):
+                for fmt in ("delimited", "fixed", "ods", "excel"):
                     for kind in ("none", "int", "empty", "bytes"):
                         for damaged in (False, True): yield (fmt, kind, damaged)
             def scheck(c):
                 fmt, kind, damaged = c
-                blob = good[fmt] if not damaged else {"delimited": b'1,"ab\n', "fixed": b"  1a", "ods": b"no zip"}[fmt]
-                class Named(io.BytesIO if fmt == "ods" else io.StringIO):
+                blob = good[fmt] if not damaged else {"delimited": b'1,"ab\n', "fixed": b"  1a", "ods": b"no zip", "excel": b"no workbook"}[fmt]
+                class Named(io.BytesIO if fmt in ("ods", "excel") else io.StringIO):
                     pass
-                stream = Named(blob if fmt == "ods" else blob.decode("utf-8"))
+                stream = Named(blob if fmt in ("ods", "excel") else blob.decode("utf-8"))
                 stream.name = {"none": None, "int": 7, "empty": "", "bytes": b"data"}[kind]
                 cid = interface.Cid(cid_paths[fmt])
                 try: got = list(validio.rows(cid, stream, on_error="continue"))
@@ -186,7 +186,7 @@ def unit_hostile_data():
                     return None if damaged else {"expected": "the rows of the stream", "observed": repr(e)}
                 except Exception as e: return {"expected": "rows or a DataError", "observed": "%s: %s" % (type(e).__name__, str(e)[:100])}
                 return None if (damaged or len(got) == 2) else {"expected": "2 rows", "observed": got}
-            res.append(sweep("C10/hostile/data streams whose name is None, a number, empty or bytes", scases(), scheck, "bounded", "delimited / fixed / ods x 4 kinds of stream name x {good data, damaged data}",
+            res.append(sweep("C10/hostile/data streams whose name is None, a number, empty or bytes", scases(), scheck, "bounded", "delimited / fixed / ods / excel data given as a stream x 4 kinds of stream name x {good data, damaged data}",
                              describe=lambda c: {"format": c[0], "stream.name": c[1], "damaged": c[2]}, function="validio.Reader.__init__ / errors.Location", unit="C10.hostile.data", props=["C10", "C04"]))
             # writers: every encoding name a CID accepts either writes the rows or refuses them with a DataError
             def wcases():
